@@ -141,6 +141,11 @@ CHECKS = {
           "Committed filesystem indexes (4-30 documents, 1-3 segments, deletions, optionally a queued operation in wal.log) are copied file by file to another path or renamed; the original is kept, deleted, or goes on with its own commit + compaction; the copy is opened at the new path and driven with generated search / add / delete / commit / compact / reopen sequences. The copy must open and answer a search battery exactly as the original did at copy time, follow the store model afterwards (after every commit, compaction and reopen), and a byte-for-byte listing of the original directory must be unchanged by anything done through the copy.",
           "Trusted: the store model; the listing. The copy is taken while no writer is open.",
           "DESIGN.md §5 C28"),
+  "C29": ("exploration",
+          "property-based testing against an exact nearest-neighbour / similarity reference computed from the raw vectors (harness built with --features vectors)",
+          "Indexes with a vector field (dim 1-6, cosine or L2, optional hnsw parameters) and 3-40 documents with present / null / missing vectors, committed in segments of at most 16 vectors (the exactness regime of the statement) with deletions. Vector-only requests (k, boost, filter, vector_filter, limit): every hit must be a live document with a vector passing both filters, vector_score == exact similarity x boost == score, hits ordered by score and equal to the exact top-limit similarities. Hybrid requests (object or legacy tuple, alpha 0 / 0.25 / 0.5 / 1): vector_score exact, score == alpha x text score + (1-alpha) x vector score against a text-only run on the same reader, ordered by score. A wrong-dimension query vector must be an error; a wrong-dimension document vector must be rejected at add or at commit.",
+          "Trusted: harness similarity functions (f32, 1e-4 relative), fmodel.rs for filters. Whether a hybrid request returns text matches that have no vector is not judged.",
+          "DESIGN.md §5 C29"),
   "C30": ("exploration",
           "metamorphic property-based testing (composite page walk vs unpaged request), after_key handed back as value and through JSON text",
           "Corpora of 3-40 documents (keyword and f64/i64 fast fields, multi-valued, missing, fractional/negative/extreme values) over 1-3 segments with deletions and optional filter; composite aggregations of 1-3 sources (terms, histogram with fractional intervals) with optional sub-aggregation and page size 1..5. The concatenated pages must equal the unpaged buckets (keys, order, counts, sub-aggregations), every page but the last must be full with after_key == its last key, and the last page must carry no after_key; half of the cases send after_key back through JSON text exactly as an HTTP/CLI/FFI client does.",
